@@ -454,7 +454,8 @@ def generate(prop: str, seed: int, tier: str = "quick", fault_free: bool = False
                         "key": key, "stack": w.choice([3, 5, 7, 9, 12, 16, 21, 28, 40])})
         elif k == "term":
             ops.append({"op": "term", "parent": w.randrange(64), "kind": w.choice(TERMS),
-                        "cols": w.choice([[], ["c1"], ["c1", "c2"], "c"])})
+                        "cols": w.choice([[], ["c1"], ["c1", "c2"], "c"]),
+                        "alias": w.random() < 0.3})
         elif k == "fail":
             ops.append({"op": "derive_fail", "parent": w.randrange(64),
                         "kind": w.choice(FAIL_KINDS), "lam": w.randrange(64)})
@@ -773,10 +774,12 @@ class Forest:
             gate = threading.Lock()
             gate.acquire()
             call["gate"] = gate
-            if vloop.interrupt_waiting_caller():
+            if vloop.can_interrupt_waiting_caller():
+                # everything is recorded BEFORE the caller is woken: from then on two threads
+                # run, and this one does nothing but wait at the gate
                 call["interrupt_sent"] = True
                 self.ev("caller_interrupt", peer, title)
-                gate.acquire()
+                vloop.interrupt_waiting_caller(); gate.acquire()  # noqa: E702
         try:
             if plan[0] == "stall":
                 await asyncio.get_running_loop().create_future()
@@ -800,9 +803,23 @@ class Forest:
         async def ov(a, title=None):
             return await self.peer_exec(f"OV{k}", None, a, title)
 
-        if k % 2 == 0:
+        if k == 0:
             return ov
         eng = self
+        if k == 2:  # a partial object: no __name__, no __code__
+            import functools
+
+            async def ov3(tag, a, title=None):
+                return await eng.peer_exec(tag, None, a, title)
+
+            return functools.partial(ov3, "OV2")
+        if k == 3:  # a bound method of some service object
+
+            class Service:
+                async def run(self, a, title=None):
+                    return await eng.peer_exec("OV3", None, a, title)
+
+            return Service().run
 
         class RecordingExecutor:
             "A callable object that is falsy (it is a container of the requests served so far)."
@@ -841,7 +858,7 @@ class Forest:
             ds = self.FakeDataset(i, t)
             self.datasets[i] = ds
             self.add_stream(ds, i, None, "root", twin=ds)
-        self.overrides = [self.make_override(0), self.make_override(1)]
+        self.overrides = [self.make_override(i) for i in range(4)]
         # shared AST objects (the same ast.Lambda instance may be handed to many calls)
         self.shared = [self.parse_lambda(src) for _, src in self.cfg["pool"]]
         real_dir = None
@@ -1252,6 +1269,14 @@ class Forest:
         cols = op["cols"]
 
         def mk(s):
+            if op.get("alias"):  # the lower-case aliases, arguments by keyword
+                if op["kind"] == "pandas":
+                    return s.as_pandas(columns=cols)
+                if op["kind"] == "awkward":
+                    return s.as_awkward(columns=cols)
+                if op["kind"] == "root":
+                    return s.as_ROOT_tree("f.root", "tree", columns=cols)
+                return s.as_parquet("f.parquet", columns=cols)
             if op["kind"] == "pandas":
                 return s.AsPandasDF(cols)
             if op["kind"] == "awkward":
@@ -1420,7 +1445,7 @@ class Forest:
     def kwargs_for(self, call):
         kw = {}
         if call["override"]:
-            kw["executor"] = self.overrides[call["no"] % 2]
+            kw["executor"] = self.overrides[call["no"] % 4]
         if call["title"] is not None:
             kw["title"] = call["title"]
         return kw
@@ -1636,7 +1661,7 @@ class Forest:
                                               "exc": repr(res[1])[:200]})
             if st:
                 h = st[0]
-                exp_peer = f"OV{call['no'] % 2}" if call["override"] else m.root
+                exp_peer = f"OV{call['no'] % 4}" if call["override"] else m.root
                 if h["peer"] != exp_peer or not h["self_ok"]:
                     raise Violation("C12/route", {"call": call["no"], "expected": exp_peer,
                                                   "got": h["peer"], "self_ok": h["self_ok"]})
